@@ -78,6 +78,13 @@ MatchFrom(sz, cd, pm, k, d, ds, cp) ==
 \* the whole run on an empty destination: file -> index of the candidate placed (0 = none)
 MatchAll(sz, cd) == MatchFrom(sz, cd, PieceMap(sz), 1, [f \in DOMAIN sz |-> 0], [f \in DOMAIN sz |-> 0], {})
 
+(* ---- v2 / hybrid metafiles: Metadata._match_v2 --------------------------------------------- *)
+\* per file: the first same-sized candidate whose merkle root equals the recorded one is copied (an
+\* empty file has no root: the first same-sized, i.e. empty, candidate is taken); 0 = nothing placed
+FirstV2(size, cs) == LET S == {k \in DOMAIN cs : cs[k] \in SameSize /\ (size = 0 \/ cs[k] = "intact")}
+                     IN IF S = {} THEN 0 ELSE CHOOSE k \in S : \A j \in S : k <= j
+MatchV2(sz, cd) == [f \in DOMAIN sz |-> FirstV2(sz[f], cd[f])]
+
 VARIABLES sizes, cands, dest, dsize, copied, piece, pc
 vars == <<sizes, cands, dest, dsize, copied, piece, pc>>
 NP == CeilDiv(SumSeq(sizes), P)
@@ -104,6 +111,12 @@ ClassOf(f) == IF dest[f] = 0 THEN "absent" ELSE cands[f][dest[f]]
 \* C14: a candidate none of whose bytes verify is never placed
 Safe == /\ \A f \in DOMAIN sizes : (sizes[f] > 0 /\ dest[f] # 0) => ClassOf(f) # "decoy_all"
         /\ \A f \in DOMAIN sizes : IsPad(cands, f) => dest[f] = 0              \* nothing is ever written for padding
+\* the same two properties for the v2 rule, on the same universe of scenarios
+V2Safe == \A f \in DOMAIN sizes : LET k == MatchV2(sizes, cands)[f] IN
+             (~IsPad(cands, f) /\ k # 0 /\ sizes[f] > 0) => cands[f][k] = "intact"
+V2Complete == \A f \in DOMAIN sizes :
+                 (~IsPad(cands, f) /\ \E k \in DOMAIN cands[f] : cands[f][k] = "intact")
+                    => LET k == MatchV2(sizes, cands)[f] IN k # 0 /\ (sizes[f] > 0 => cands[f][k] = "intact")
 \* C13: complete whenever an intact copy of every file is available
 CompleteRun == pc = "done" =>
                LET Real == {f \in DOMAIN sizes : ~IsPad(cands, f)} IN
